@@ -17,13 +17,26 @@ KANI_UNITS = {
     'kani': dict(
         props=['C03', 'C04', 'C05', 'C06', 'C07', 'C08', 'C10', 'C11', 'C12', 'C14', 'C17'],
         attach={'src/common/deque.rs': 'kani/deque.rs', 'src/unsync/deques.rs': 'kani/unsync_deques.rs', 'src/unsync/cache.rs': 'kani/unsync_cache.rs',
-                'src/common/builder_utils.rs': 'kani/builder_utils.rs', 'src/common.rs': 'kani/common.rs', 'src/common/frequency_sketch.rs': 'kani/frequency_sketch.rs'},
+                'src/common/builder_utils.rs': 'kani/builder_utils.rs', 'src/common.rs': 'kani/common.rs', 'src/common/frequency_sketch.rs': 'kani/frequency_sketch.rs',
+                'src/common/concurrent/entry_info.rs': 'kani/entry_info.rs', 'src/common/concurrent/atomic_time.rs': 'kani/atomic_time.rs',
+                'src/common/concurrent/housekeeper.rs': 'kani/housekeeper.rs'},
         flags=['-Z', 'stubbing'], jobs=8,
         harnesses=[
             dict(name='window_unlink', tags=['C08', 'C11', 'C12'], function='Deque::unlink', what='local-window pointer contract of Deque::unlink (P<->X<->N, symbolic presence, dangling outer pointers, symbolic head/tail/cursor/len): complete for one operation on lists of any length'),
             dict(name='window_move_to_back', tags=['C08', 'C12'], function='Deque::move_to_back', what='local-window pointer contract of Deque::move_to_back (three list shapes): complete for one operation'),
             dict(name='window_push_back', tags=['C08', 'C11', 'C12'], function='Deque::push_back', what='local-window pointer contract of Deque::push_back (empty / tail is head / long list): complete for one operation'),
             dict(name='window_pop_front', tags=['C08', 'C11'], function='Deque::pop_front', what='local-window pointer contract of Deque::pop_front: the head is handed out as a Box exactly once: complete for one operation'),
+            dict(name='window_peek', tags=['C08', 'C12', 'C05', 'C06'], function='Deque::peek_front', what='peek_front / peek_front_ptr hand out exactly the head node and touch nothing: complete for lists of every length'),
+            dict(name='window_contains', tags=['C08', 'C12'], function='Deque::contains', what='contains(x) is true for a member of the list (it has a predecessor or is the head) and false for a detached node: complete (a node linked into ANOTHER list also answers true: callers select the list by the region tag first)'),
+            dict(name='window_move_front_to_back', tags=['C08', 'C12'], function='Deque::move_front_to_back', what='the head node becomes the tail, an empty or one-node list is untouched (four list shapes): complete for one operation'),
+            dict(name='window_unlink_and_drop', tags=['C08', 'C11'], function='Deque::unlink_and_drop', what='neighbours joined as by unlink and the node released exactly once (CBMC deallocation checks): complete for one operation'),
+            dict(name='node_and_list_constructors', tags=['C08', 'C17'], function='DeqNode::new', what='DeqNode::new / next_node_ptr / Deque::new / Deque::region: complete'),
+            dict(name='entry_info_new_and_flags', tags=['C10', 'C12', 'C05', 'C06'], function='EntryInfo', what='sequential meaning of the bookkeeping record the Verus units assume (src/common/concurrent/entry_info.rs, atomics): a fresh record is not admitted, dirty, carries the given weight and stamps, no nodes; flag / weight setters store exactly their argument and touch nothing else: complete for one thread'),
+            dict(name='entry_info_stamps', tags=['C05', 'C06'], function='EntryInfo', what='set_last_accessed / set_last_modified store exactly their argument in their own slot: complete for one thread'),
+            dict(name='entry_info_node_slots', tags=['C11', 'C12'], function='EntryInfo', what='node slots (Mutex): a getter returns what the setter stored, take_* empties the slot and returns its content, unset_q_nodes empties both: complete for one thread'),
+            dict(name='atomic_instant_roundtrip', tags=['C07', 'C05', 'C06'], function='AtomicInstant', what='AtomicInstant (RwLock<Option<Instant>>): default is unset, set_instant / instant / is_set / new round-trip: complete for one thread'),
+            dict(name='housekeeper_full_queue_always_triggers', tags=['C04', 'C08'], function='Housekeeper::should_apply', what='a queue at its flush point triggers maintenance whatever the clock says; the read / write entry points pass on their own flush point: complete'),
+            dict(name='housekeeper_try_sync_runs_one_pass', tags=['C10', 'C08'], function='Housekeeper::try_sync', what='try_sync runs exactly one maintenance pass with MAX_SYNC_REPEATS, releases its flag afterwards, and does not enter a pass that is already running: complete for one thread'),
             dict(name='seq_3x3', tags=['C08', 'C11', 'C12'], function='Deque', bounded='3 nodes x 3 symbolic operations, unwind 10', what='operation sequences on the real list with a structural walker after every step and Drop at the end', timeout=1500),
             dict(name='deques_tagged_rc', tags=['C08', 'C11', 'C07', 'C05'], function='unsync::Deques', bounded='2 entries, 1 symbolic move, unwind 6', what='tagged-pointer region dispatch never reaches unreachable!/panic!; key clones released exactly when nodes are unlinked (Rc::strong_count)', timeout=1500),
             dict(name='weigh_defaults_to_one', tags=['C17'], function='weigh', what='weigh(None, k, v) == 1 for all k, v: complete'),
